@@ -99,7 +99,7 @@ func spacesLine(s string) Line { return mk("spaces", s, 0, "spaces") }
 func comment(text string, pad int) Line {
 	return mk("comment", ":"+text, pad, "comment")
 }
-func idLine(v string) Line    { return mk("id", "id: "+v, 0, "id") }
+func idLine(v string) Line        { return mk("id", "id: "+v, 0, "id") }
 func other(text, cat string) Line { return mk("other", text, 0, cat) }
 func eventLine(name, sep string) Line {
 	l := mk("event", "event:"+sep+name, 0, "event")
@@ -809,7 +809,9 @@ func (g *gen) stdioCases(thorough bool) {
 	}
 	add("giant-answer-1m", 1, false, func(ids []int) []Frame { return []Frame{val(resultPadText(ids[0], "g"), 1<<20, "giant-answer")} })
 	add("giant-notif-1m", 1, false, func(ids []int) []Frame { return []Frame{val(notifPadText(1), 1<<20, "notif"), ans(ids[0], "a")} })
-	add("id-fraction-truncates", 1, false, func(ids []int) []Frame { return []Frame{val(resultText(fmt.Sprintf("%d.5", ids[0]), "frac"), 0, "fractional-id")} })
+	add("id-fraction-truncates", 1, false, func(ids []int) []Frame {
+		return []Frame{val(resultText(fmt.Sprintf("%d.5", ids[0]), "frac"), 0, "fractional-id")}
+	})
 	add("no-answer", 1, false, func(ids []int) []Frame { return []Frame{val(notifText(1), 0, "notif")} })
 	add("answers-swapped", 3, false, func(ids []int) []Frame {
 		return []Frame{ans(ids[2], "c"), val(errorText(ids[1]), 0, "rpc-error"), ans(ids[0], "a")}
